@@ -595,12 +595,17 @@ def gen_cases(run, n_cases, max_ops, cfg):
             run.coverage["unsupported"] = run.coverage.get("unsupported", 0) + 1
             continue
         is_obj = r["meta"]["kind"] == "obj"
+        if b["data"].get("type") in G.SCO_TYPES and rng.random() < 0.7:
+            continue        # 2.1 observables cannot be versioned either: every mutator raises; keep some for the queries
         if b["data"].get("type") == "marking-definition" and rng.random() < 0.5:
             continue        # marking definitions cannot be versioned: every mutator raises; keep some for the queries
         valid, invalid = selector_pool(rng, r["tree"], cfg, is_obj)
         if not valid:
             continue
         ops = gen_ops(rng, valid, invalid, r["state0"], (not is_obj) or r["meta"]["v21"], is_obj, max_ops)
+        for o in ops:
+            if rng.random() < 0.3:
+                o["kw"] = True                     # the same call with keyword arguments
         cases.append({"build": b, "kind": "c07", "ops": ops, "_term": term})
         # commutation twins: add a; add b  /  add b; add a
         if rng.random() < 0.25 and len(valid) >= 2:
@@ -700,7 +705,12 @@ def check(run):
             k = next((j for j in range(min(len(a), len(b))) if a[j] != b[j]), min(len(a), len(b)))
             dis.append({"case": strip(c), "op_index": k, "impl": a[k] if k < len(a) else None,
                         "model": b[k] if k < len(b) else None})
-        for what, k, finding in oracle_sequence(c, r, cfg):
+        try:
+            judged = oracle_sequence(c, r, cfg)
+        except Exception as e:  # noqa: BLE001 -- the oracle must never take the check down
+            run.broken.append(Broken("harness", "oracle failed on a sequence", {"case": strip(c), "error": "%s: %s" % (type(e).__name__, e)}))
+            judged = []
+        for what, k, finding in judged:
             run.violations.append(Violation(what, {"kind": "ops", "case": strip(c), "op_index": k}, finding))
         if c.get("_twin") == "first":
             twin_first = (c, r)
@@ -710,6 +720,27 @@ def check(run):
             twin_first = None
         if i < 3:
             run.sample({"build": c["build"], "ops": c["ops"][:4], "impl": line[:400]})
+    # the same sequences in another process environment (TZ=JST-9, PYTHONHASHSEED=7, lower recursion limit):
+    # the answers must be those of the model / the default run, and the laws must hold there too
+    alt_idx = list(range(0, len(cases), 4))
+    alt = common.run_impl("c07_impl", [strip(cases[i]) for i in alt_idx], args=("--alt-env",))
+    env_dis = []
+    for i, r in zip(alt_idx, alt):
+        if "results" not in r or "results" not in impl[i]:
+            continue
+        a, b = render_impl(r["results"]), render_impl(impl[i]["results"])
+        if a != b:
+            env_dis.append({"case": strip(cases[i]), "default_env": b[:300], "alt_env": a[:300]})
+        try:
+            for what, k, finding in oracle_sequence(cases[i], r, cfg):
+                run.violations.append(Violation(what + " (TZ=JST-9, PYTHONHASHSEED=7)",
+                                                {"kind": "ops", "case": strip(cases[i]), "op_index": k}, finding))
+        except Exception as e:  # noqa: BLE001
+            run.broken.append(Broken("harness", "oracle failed on a sequence", {"case": strip(cases[i]), "error": str(e)}))
+    run.coverage["alt_environment_sequences"] = len(alt_idx)
+    if env_dis:
+        run.broken.append(Broken("correspondence", "results depend on the process environment (TZ / PYTHONHASHSEED)",
+                                 {"first": env_dis[:3]}))
     run.coverage["sequences"] = len(cases)
     run.coverage["operation_histogram"] = dict(hist)
     run.coverage["correspondence_disagreements"] = len(dis)
